@@ -6,6 +6,7 @@ import PosterModel.Script
 import PosterModel.Spec.Client
 import PosterModel.Spec.Server
 import PosterModel.Lemmas.WorldQuietIds
+import PosterModel.Lemmas.WorldWireCheck
 
 open Poster Poster.Script
 
@@ -65,7 +66,9 @@ partial def processLines (h : IO.FS.Stream) (cur : Option (String × Array Strin
     `nodup`   = `(World.opIds evs).Nodup` (pairwise distinct OP identifiers; hypothesis of the C05/C14/C16 script-level theorems),
     `stepsok` = `World.runOk cfg evs` (after every event the executor's drain reached quiescence within its fuel and no
                 SUBSCRIBE re-used a live stream's identifier; hypothesis of `sweep_irrelevant_partial`),
-    `bad`     = the script was rejected (`BADSCRIPT`) -/
+    `bad`     = the script was rejected (`BADSCRIPT`),
+    `indomain` = `scriptInDomainB evs` (every request of the script is inside MQTT 5's domain: hypothesis `ScriptInDomain` of
+                the C01 script-level theorems, sound by `scriptInDomainB_sound`) -/
 def hypsScript (name : String) (lines : List String) : String :=
   let lines := lines.filter fun l => l ≠ "" ∧ !l.startsWith "#"
   let (cfg?, evLines) := match lines with
@@ -77,7 +80,8 @@ def hypsScript (name : String) (lines : List String) : String :=
     let nodup := decide ids.Nodup
     let ok := World.runOk cfg evs
     let bad := (evs.foldl World.step { cfg := cfg }).bad
-    s!"HYP {name} nodup={if nodup then 1 else 0} stepsok={if ok then 1 else 0} bad={if bad then 1 else 0}"
+    let dom := scriptInDomainB evs
+    s!"HYP {name} nodup={if nodup then 1 else 0} stepsok={if ok then 1 else 0} bad={if bad then 1 else 0} indomain={if dom then 1 else 0}"
   | _, _ => s!"HYP {name} unparsed"
 
 partial def processHyps (h : IO.FS.Stream) (cur : Option (String × Array String)) : IO Unit := do
